@@ -4,6 +4,7 @@ import RedisVerif.Model.Wal
 
 /-
   C10 sub-driver (stateful: `I` sets the base image, later ops refer to it).
+    V <1|2>                                   → set the WAL format the code under test speaks (default 2)
     K <hex>                                   → CRC-32 of the bytes (differential test of Driver.crc32)
     B <max> <n> {<ts> <crc> <hex>}*           → files written by the model rotator (no faults)
     I <k> {<seq> <hex>}*                      → set base image
@@ -41,9 +42,13 @@ def imageP : P Image := do
 
 def allOk : Nat → Outcome := fun _ => .ok
 
-/-- run the model rotator (pinned code variant, no faults) over the entries -/
-def build (maxSize : Nat) (es : List Entry) : Rot :=
-  es.foldl (fun r e => (Rot.append false allOk r e).1) (Rot.init maxSize)
+/-- run the model rotator (no faults: both rotator variants write the same bytes) over the entries -/
+def build (fmt : Format) (maxSize : Nat) (es : List Entry) : Rot :=
+  es.foldl (fun r e => (Rot.append false fmt allOk r e).1) (Rot.init maxSize)
+
+structure St where
+  fmt : Format := .v2
+  base : Image := []
 
 def modFile (img : Image) (seq : Nat) (f : Bytes → Bytes) : Image :=
   img.map (fun p => if p.1 = seq then (p.1, f p.2) else p)
@@ -59,6 +64,7 @@ def showOptDeltas : Option (List Bytes) → String
 def deOf (bad : List Bytes) (d : Bytes) : Option Bytes := if bad.contains d then none else some d
 
 inductive Op where
+  | setFmt (v : Nat)
   | crcOf (b : Bytes)
   | build (max : Nat) (es : List Entry)
   | setImage (img : Image)
@@ -72,6 +78,7 @@ inductive Op where
 def opP : P Op := do
   let t ← tok
   match t with
+  | "V" => do let v ← nat; pure (.setFmt v)
   | "K" => do let b ← bytesTok; pure (.crcOf b)
   | "B" => do
     let m ← nat
@@ -98,27 +105,30 @@ def opP : P Op := do
     pure (.after (some (s, b)) t bad)
   | _ => failure
 
-def step (base : Image) (line : String) : Image × String :=
+def step (st : St) (line : String) : St × String :=
+  let fmt := st.fmt
+  let base := st.base
   match runP opP line with
-  | none => (base, "bad-op")
+  | none => (st, "bad-op")
   | some op =>
     match op with
-    | .crcOf b => (base, toString (crc b))
+    | .setFmt v => ({ st with fmt := if v = 1 then .v1 else .v2 }, s!"format {if v = 1 then 1 else 2}")
+    | .crcOf b => (st, toString (crc b))
     | .build m es =>
-      let r := build m es
-      (base, s!"{showImage (fullImage r.w.store)} cur={showOptNat r.cur} seq={r.seq}")
-    | .setImage i => (i, s!"ok {i.length}")
-    | .recover => (base, showEntries (recoverAll crc base))
-    | .cut s l => (base, showEntries (recoverAll crc (modFile base s (fun b => b.take l))))
-    | .setByte s p v => (base, showEntries (recoverAll crc (modFile base s (fun b => b.set p v))))
-    | .appendBytes s b => (base, showEntries (recoverAll crc (modFile base s (fun x => x ++ b))))
+      let r := build fmt m es
+      (st, s!"{showImage (fullImage r.w.store)} cur={showOptNat r.cur} seq={r.seq}")
+    | .setImage i => ({ st with base := i }, s!"ok {i.length}")
+    | .recover => (st, showEntries (recoverAll fmt crc base))
+    | .cut s l => (st, showEntries (recoverAll fmt crc (modFile base s (fun b => b.take l))))
+    | .setByte s p v => (st, showEntries (recoverAll fmt crc (modFile base s (fun b => b.set p v))))
+    | .appendBytes s b => (st, showEntries (recoverAll fmt crc (modFile base s (fun x => x ++ b))))
     | .trunc T a =>
-      let r := truncateBefore crc T a base
-      (base, s!"deleted={base.length - r.length} remain {" ".intercalate (r.map (fun p => toString p.1))}")
+      let r := truncateBefore fmt crc T a base
+      (st, s!"deleted={base.length - r.length} remain {" ".intercalate (r.map (fun p => toString p.1))}")
     | .after app t bad =>
       let img := match app with
         | none => base
         | some (s, b) => modFile base s (fun x => x ++ b)
-      (base, showOptDeltas (recoverAfter crc (deOf bad) t img))
+      (st, showOptDeltas (recoverAfter fmt crc (deOf bad) t img))
 
 end RedisVerif.Driver.C10
